@@ -247,11 +247,34 @@ func crashSig(log string) (sig, line string, ok bool) {
 			blk = blk[:e]
 		}
 	}
-	fr := frameRe.FindStringSubmatch(blk)
-	if fr == nil {
-		return "", m, false
+	// first frame that is neither runtime nor a panic/recover helper decides whose crash it is
+	frame := ""
+	for _, ln := range strings.Split(blk, "\n") {
+		if ln == "" || ln[0] == '\t' || ln[0] == ' ' || strings.HasPrefix(ln, "goroutine ") {
+			continue
+		}
+		if strings.HasPrefix(ln, "runtime.") || strings.HasPrefix(ln, "panic(") || strings.HasPrefix(ln, "runtime/") || strings.HasPrefix(ln, "internal/") || strings.HasPrefix(ln, "sync.") || strings.HasPrefix(ln, "sync/") {
+			continue
+		}
+		if strings.Contains(ln, "props.guard") {
+			continue
+		}
+		frame = ln
+		break
 	}
-	frame := fr[1]
+	fr := frameRe.FindStringSubmatch(frame + "\n")
+	if fr == nil {
+		// "fatal error" raised by the runtime (e.g. concurrent map writes) inside library code
+		if strings.HasPrefix(m, "fatal error") {
+			if fr2 := frameRe.FindStringSubmatch(blk); fr2 != nil && !strings.Contains(frame, "verifharness") {
+				fr = fr2
+			}
+		}
+		if fr == nil {
+			return "", m, false
+		}
+	}
+	frame = fr[1]
 	ml := m
 	if len(ml) > 80 {
 		ml = ml[:80]
